@@ -164,6 +164,10 @@ func (e *Exec) binop(op token.Token, a, b Val, ta, tb types.Type) Val {
 		case token.OR, token.LOR:
 			return tOr(x, y)
 		}
+	case KBlob:
+		if op == token.ADD {
+			return tStrConcat(x, y)
+		}
 	case KStr:
 		switch op {
 		case token.ADD:
